@@ -7,7 +7,7 @@ git apply "$P" || { echo "patch does not apply"; exit 2; }
 cd /verif
 for p in "$@"; do
   echo "--- $p"
-  ./check "$p" 2>&1 | grep -E "^(VIOLATION|UNDECIDED|OK|KNOWN)" | head -8
+  VERIF_EVIDENCE_DIR=/verif/work/mutant-evidence ./check "$p" 2>&1 | grep -E "^(VIOLATION|UNDECIDED|OK|KNOWN)" | head -8
   echo "exit=$?"
 done
 git -C /repo checkout -- .
